@@ -396,6 +396,13 @@ func solveAll(obls []*Obligation, tier string) {
 			wg.Add(1)
 			go func() {
 				defer wg.Done()
+				defer func() {
+					// an obligation the machinery cannot even pose (malformed term after an
+					// unsupported construct) is undecided, never a crash and never a pass
+					if r := recover(); r != nil {
+						o.Res = &SolveResult{Status: "error", Backend: "none", Raw: fmt.Sprintf("obligation could not be posed: %v", r)}
+					}
+				}()
 				solveOne(o, b, tier == "thorough")
 			}()
 		}
@@ -628,6 +635,9 @@ func sortedSet(m map[string]bool) []string {
 var _ = time.Now
 
 func hasQuantifier(t *Term) bool {
+	if t == nil {
+		return false
+	}
 	if t.Op == "forall" || t.Op == "exists" {
 		return true
 	}
